@@ -22,7 +22,7 @@ worker() {
     tag=$(basename $root)_${id}_${k}
     [ -f work/seeds/$tag.check.txt ] && continue
     case $id in
-      C01) props="C01 C10";; C08) props="C08 C10 C15 C03";; C09) props="C09 C01";; C10) props="C10 C01";;
+      C01) props="C01 C10 C13";; C08) props="C08 C10 C15 C03";; C09) props="C09 C01";; C10) props="C10 C01";;
       C15) props="C15 C08";; C18) props="C18";; C19) props="C19 C18";; C20) props="C20";;
       C02) props="C02 C05";; C03) props="C03 C02";; C04) props="C04";; C05) props="C05 C04";; C06) props="C06 C02";; C07) props="C07 C05 C06";;
       C11) props="C11 C15 C10";; C12) props="C12 C11";; C13) props="C13 C12";; C17) props="C17 C04";;
